@@ -141,8 +141,16 @@ def client_programs(c):
   def run_program(dep, prog):
     out = []
     study = None
+    # Route every implicit service lookup of the client library to THIS deployment (the attrs
+    # default factory of VizierClient captured create_vizier_servicer_or_stub itself, so patch what
+    # that function consults: the cached local servicer and the endpoint variable).
     orig_factory = vizier_client.create_vizier_servicer_or_stub
+    orig_local = vizier_client._create_local_vizier_servicer  # pylint: disable=protected-access
+    orig_endpoint = vizier_client.environment_variables.server_endpoint
     vizier_client.create_vizier_servicer_or_stub = lambda: dep.api
+    vizier_client._create_local_vizier_servicer = lambda: dep.api  # pylint: disable=protected-access
+    if dep.server is not None:
+      vizier_client.environment_variables.server_endpoint = dep.server.endpoint
     orig_sleep = vizier_client.time.sleep
     vizier_client.time.sleep = lambda s: None
     try:
@@ -207,6 +215,8 @@ def client_programs(c):
           out.append(obs_exc(e))
     finally:
       vizier_client.create_vizier_servicer_or_stub = orig_factory
+      vizier_client._create_local_vizier_servicer = orig_local  # pylint: disable=protected-access
+      vizier_client.environment_variables.server_endpoint = orig_endpoint
       vizier_client.time.sleep = orig_sleep
     return json.loads(json.dumps(out))
 
